@@ -2,11 +2,11 @@ INIT TreeInit
 NEXT TreeNext
 CONSTANTS
   Fixes <- EnvFixes
-  AtomSet = {"a"}
-  BinOps = {"||", "&&", "==", "+", "/"}
+  AtomSet = {"a", "1", "intmin", "str"}
+  BinOps = {"-", "*", "::", "=="}
   UnOps = {"!", "-"}
-  Ctxs = {}
-  Depth = 3
+  Ctxs = {"callee", "arg", "field"}
+  Depth = 2
   StrLen = 6
 INVARIANT EmitTree
 CHECK_DEADLOCK FALSE
